@@ -202,3 +202,102 @@ package spec
 //@   ensures  value-maxProperties @@ forall f fn :: inCbs(cbs, f, len(cbs)) && old(v.MaxProperties) != nil ==> lastArg(f, "maxProperties") == iface(old(v.MaxProperties))
 //@   ensures  value-minProperties @@ forall f fn :: inCbs(cbs, f, len(cbs)) && old(v.MinProperties) != nil ==> lastArg(f, "minProperties") == iface(old(v.MinProperties))
 //@   ensures  value-patternProperties @@ forall f fn :: inCbs(cbs, f, len(cbs)) && old(v.PatternProperties) != nil ==> lastArg(f, "patternProperties") == iface(old(v.PatternProperties))
+
+// ---- C20 lemmas over the contracts above (bodies in verif_lemmas.go)
+
+//@ func verifLemmaSchemaGetSet
+//@   property C20
+//@   requires s != nil
+//@   ensures  *s == old(*s)
+
+//@ func verifLemmaSchemaSetGet
+//@   property C20
+//@   requires s != nil
+//@   ensures  sameSchemaV(result, val)
+
+//@ func verifLemmaParameterGetSet
+//@   property C20
+//@   requires p != nil
+//@   ensures  *p == old(*p)
+
+//@ func verifLemmaParameterSetGet
+//@   property C20
+//@   requires p != nil
+//@   ensures  sameCommon(result.CommonValidations, val.CommonValidations)
+//@   ensures  p.ParamProps == old(p.ParamProps) && p.SimpleSchema == old(p.SimpleSchema) && p.Refable == old(p.Refable) && p.VendorExtensible == old(p.VendorExtensible)
+
+//@ func verifLemmaHeaderGetSet
+//@   property C20
+//@   requires h != nil
+//@   ensures  *h == old(*h)
+
+//@ func verifLemmaHeaderSetGet
+//@   property C20
+//@   requires h != nil
+//@   ensures  sameCommon(result.CommonValidations, val.CommonValidations)
+//@   ensures  h.HeaderProps == old(h.HeaderProps) && h.SimpleSchema == old(h.SimpleSchema) && h.VendorExtensible == old(h.VendorExtensible)
+
+//@ func verifLemmaItemsGetSet
+//@   property C20
+//@   requires i != nil
+//@   ensures  *i == old(*i)
+
+//@ func verifLemmaItemsSetGet
+//@   property C20
+//@   requires i != nil
+//@   ensures  sameCommon(result.CommonValidations, val.CommonValidations)
+//@   ensures  i.Refable == old(i.Refable) && i.SimpleSchema == old(i.SimpleSchema) && i.VendorExtensible == old(i.VendorExtensible)
+
+//@ func verifLemmaSchemaValidationsGetSet
+//@   property C20
+//@   requires v != nil
+//@   ensures  *v == old(*v)
+
+//@ func verifLemmaClearNumberThenHas
+//@   property C20
+//@   requires p != nil && posIdent(cbs)
+//@   requires forall i int :: 0 <= i && i < len(cbs) ==> cbs[i] != nil
+//@   ensures  !result
+//@   ensures  p.ParamProps == old(p.ParamProps) && p.SimpleSchema == old(p.SimpleSchema) && p.Refable == old(p.Refable) && p.VendorExtensible == old(p.VendorExtensible)
+//@   ensures  p.MaxLength == old(p.MaxLength) && p.MinLength == old(p.MinLength) && p.Pattern == old(p.Pattern) && p.MaxItems == old(p.MaxItems)
+//@            && p.MinItems == old(p.MinItems) && p.UniqueItems == old(p.UniqueItems) && p.Enum == old(p.Enum)
+
+//@ func verifLemmaClearStringThenHas
+//@   property C20
+//@   requires h != nil && posIdent(cbs)
+//@   requires forall i int :: 0 <= i && i < len(cbs) ==> cbs[i] != nil
+//@   ensures  !result
+//@   ensures  h.HeaderProps == old(h.HeaderProps) && h.SimpleSchema == old(h.SimpleSchema) && h.VendorExtensible == old(h.VendorExtensible)
+//@   ensures  h.Maximum == old(h.Maximum) && h.Minimum == old(h.Minimum) && h.ExclusiveMaximum == old(h.ExclusiveMaximum) && h.ExclusiveMinimum == old(h.ExclusiveMinimum)
+//@            && h.MultipleOf == old(h.MultipleOf) && h.MaxItems == old(h.MaxItems) && h.MinItems == old(h.MinItems) && h.UniqueItems == old(h.UniqueItems) && h.Enum == old(h.Enum)
+
+//@ func verifLemmaClearArrayThenHas
+//@   property C20
+//@   requires i != nil && posIdent(cbs)
+//@   requires forall k int :: 0 <= k && k < len(cbs) ==> cbs[k] != nil
+//@   ensures  !result
+//@   ensures  i.Refable == old(i.Refable) && i.SimpleSchema == old(i.SimpleSchema) && i.VendorExtensible == old(i.VendorExtensible)
+//@   ensures  i.Maximum == old(i.Maximum) && i.Minimum == old(i.Minimum) && i.ExclusiveMaximum == old(i.ExclusiveMaximum) && i.ExclusiveMinimum == old(i.ExclusiveMinimum)
+//@            && i.MultipleOf == old(i.MultipleOf) && i.MaxLength == old(i.MaxLength) && i.MinLength == old(i.MinLength) && i.Pattern == old(i.Pattern) && i.Enum == old(i.Enum)
+
+//@ func verifLemmaClearObjectThenHas
+//@   property C20
+//@   requires v != nil && posIdent(cbs)
+//@   requires forall i int :: 0 <= i && i < len(cbs) ==> cbs[i] != nil
+//@   ensures  !result
+//@   ensures  v.CommonValidations == old(v.CommonValidations)
+
+//@ define allCleared(v SchemaValidations, o SchemaValidations) bool =
+//@    v.Minimum == nil && v.Maximum == nil && v.MultipleOf == nil && !v.ExclusiveMaximum && !v.ExclusiveMinimum
+//@    && v.Pattern == "" && v.MinLength == nil && v.MaxLength == nil && v.MaxItems == nil && v.MinItems == nil && !v.UniqueItems
+//@    && v.MaxProperties == nil && v.MinProperties == nil && v.PatternProperties == nil && v.Enum == o.Enum
+
+//@ func verifLemmaClearOrderA
+//@   property C20
+//@   requires v != nil
+//@   ensures  allCleared(*v, old(*v))
+
+//@ func verifLemmaClearOrderB
+//@   property C20
+//@   requires v != nil
+//@   ensures  allCleared(*v, old(*v))
